@@ -261,10 +261,10 @@ def senders(env):
     return [role for role, fn, tmpl, inp, outlen, send in plan(env) if send]
 
 
-def run_driver(x, env, role, msgs, tamper=None):
-    """RunA / RunB of `role` fed with the messages of the other side (message `tamper[0]` replaced by tamper[1]).
-    -> (err, key, written messages, number of consumed incoming messages)"""
-    pool = Pool(x)
+def driver_args(x, env, role, msgs, tamper=None, pool=None, secret=None):
+    """arguments of RunA / RunB of `role` fed with the messages of the other side (message `tamper[0]` replaced by tamper[1]).
+    secret: buffer to pass as the password / private key instead of a fresh one.  -> (function, args, channel buffer, key buffer, outs, number of incoming messages)"""
+    pool = pool or Pool(x)
     pr, no, kca, kcb, P = env["proto"], env["no"], env["kca"], env["kcb"], env["P"]
     snd = senders(env)
     inc = []
@@ -289,14 +289,21 @@ def run_driver(x, env, role, msgs, tamper=None):
         x.call("x_bake_cert", C, pool.buf(data), len(data), ret="v")
         return C
     if pr == "BPACE":
-        r = x.call(fn, key, P, S, pool.buf(env["pwd"]), len(env["pwd"]), CH_READ, CH_WRITE, CH)
+        args = [key, P, S, secret if secret is not None else pool.buf(env["pwd"]), len(env["pwd"]), CH_READ, CH_WRITE, CH]
     else:
-        D = pool.buf(env["d" + role].to_bytes(no, "little"))
+        D = secret if secret is not None else pool.buf(env["d" + role].to_bytes(no, "little"))
         own = mkcert(env["cert" + role])
         if pr == "BMQV":
-            r = x.call(fn, key, P, S, D, own, mkcert(env["cert" + ("b" if role == "a" else "a")]), CH_READ, CH_WRITE, CH)
+            args = [key, P, S, D, own, mkcert(env["cert" + ("b" if role == "a" else "a")]), CH_READ, CH_WRITE, CH]
         else:
-            r = x.call(fn, key, P, S, D, own, CERTVAL, CH_READ, CH_WRITE, CH)
+            args = [key, P, S, D, own, CERTVAL, CH_READ, CH_WRITE, CH]
+    return fn, args, CH, key, outs, len(inc), pool
+
+
+def run_driver(x, env, role, msgs, tamper=None):
+    """-> (err, key, written messages, number of consumed incoming messages)"""
+    fn, args, CH, key, outs, ninc, pool = driver_args(x, env, role, msgs, tamper)
+    r = x.call(fn, *args)
     raw = CH.read()
     h = [int.from_bytes(raw[8 * i:8 * i + 8], "little") for i in range(8)]
     o = raw[64 + h[3]:64 + h[3] + h[5]]
@@ -306,7 +313,7 @@ def run_driver(x, env, role, msgs, tamper=None):
         wr.append(o[8:8 + n]); o = o[8 + n:]
     k = key.read() if r == 0 else None     # the key is defined only after a successful run
     pool.free()
-    return r, k, wr, h[1], outs, len(inc)
+    return r, k, wr, h[1], outs, ninc
 
 
 def trace(res):
